@@ -250,6 +250,7 @@ func (r *rw) raceRewrite(f *ast.File) {
 	mapIdx := map[*ast.IndexExpr]bool{}   // index expressions on maps (by original node)
 	mapCall := map[*ast.CallExpr]string{} // delete(m,k) / len(m) on maps
 	copyCall := map[*ast.CallExpr]bool{}  // copy(dst, src) on slices (value: src is a slice too)
+	stdCall := map[*ast.CallExpr]string{} // method calls on *bytes.Buffer / *bufio.Writer / *bufio.Reader
 	ast.Inspect(f, func(n ast.Node) bool {
 		switch st := n.(type) {
 		case *ast.AssignStmt:
@@ -278,6 +279,25 @@ func (r *rw) raceRewrite(f *ast.File) {
 			if id, ok := st.Fun.(*ast.Ident); ok && id.Name == "copy" && len(st.Args) == 2 && r.isSlice(st.Args[0]) {
 				copyCall[st] = r.isSlice(st.Args[1])
 			}
+			// method calls on pointers to unsynchronised std-lib objects (bytes.Buffer, bufio.Reader/Writer):
+			// the object is one plain location, read-only methods are reads, all others writes
+			if se, ok := st.Fun.(*ast.SelectorExpr); ok {
+				if sl, ok := r.info.Selections[se]; ok && sl.Kind() == types.MethodVal {
+					if pt, ok := r.info.Types[se.X].Type.(*types.Pointer); ok {
+						if n, ok := pt.Elem().(*types.Named); ok && n.Obj().Pkg() != nil {
+							switch n.Obj().Pkg().Path() + "." + n.Obj().Name() {
+							case "bytes.Buffer", "bufio.Writer", "bufio.Reader", "bufio.ReadWriter":
+								switch se.Sel.Name {
+								case "Len", "Cap", "Bytes", "String", "Available", "Buffered", "Size":
+									stdCall[st] = "ObjR|" + n.Obj().Pkg().Path() + "." + n.Obj().Name()
+								default:
+									stdCall[st] = "ObjW|" + n.Obj().Pkg().Path() + "." + n.Obj().Name()
+								}
+							}
+						}
+					}
+				}
+			}
 		}
 		return true
 	})
@@ -297,6 +317,13 @@ func (r *rw) raceRewrite(f *ast.File) {
 			if fn, ok := mapCall[n]; ok {
 				r.used = true
 				n.Args[0] = call("vsched", fn, n.Args[0], lit("map|"+r.funcOf(n)+"|"+r.pos(n)))
+				return true
+			}
+			if v, ok := stdCall[n]; ok {
+				parts := strings.SplitN(v, "|", 2)
+				se := n.Fun.(*ast.SelectorExpr)
+				r.used = true
+				se.X = call("vsched", parts[0], se.X, lit(parts[1]+" object|"+r.funcOf(n)+"|"+r.pos(n)))
 				return true
 			}
 			if srcSlice, ok := copyCall[n]; ok {
